@@ -384,6 +384,11 @@ def r7_r8_preparation(chk, f):
 
         X = stores[0].value.args[0]
         xdef = Env(f.node).single(X.id) if isinstance(X, ast.Name) else X
+        if xdef is None and isinstance(X, ast.Name):
+            # re-bound on the way (`_input = list(_input)`): the binding that reaches the count
+            from ..canon import dominating_def
+
+            xdef = dominating_def(f.node, stores[0], X.id)
         okx, why = False, f"`{norm(X)}` is not a list with one entry per input"
         if isinstance(xdef, ast.Call) and call_name(xdef) in ("list", "tuple") and len(xdef.args) == 1 and isinstance(xdef.args[0], ast.Name):
             okx = True
